@@ -91,13 +91,13 @@ def units(tier, seed):
     for fr in ("base_link", "map"):
         for pol in S.POLICIES:
             for k in range(2):
-                u.append(dict(layer="c", frame=fr, policy=pol, kmax=2, chunk=[k, 2]))
+                u.append(dict(layer="c", frame=fr, policy=pol, kmax=2, chunk=[k, 2], reduced=tier == "quick"))
     return u
 
 
 def bounds(tier, seed):
     return {"ranking_length": "0..%d over 6 symbols" % (5 if tier == "quick" else 6) + ("; 7..9 over 4 symbols" if tier == "thorough" else ""),
-            "gt_count": "0..len+1 (len<=5), else {0, nT-1, nT, nT+1, len+1}", "orders": ["ranked", "reversed", "rotated+split"],
+            "gt_count": "0..len+1 (len<=4), else {0, nT-1, nT, nT+1, len+1}", "orders": ["ranked", "reversed", "rotated+split"],
             "map_pairs_len": 3 if tier == "quick" else 4, "scene_sublists": 2, "modes": 4, "frames": ["base_link", "map"]}
 
 
@@ -115,7 +115,7 @@ def run_unit(unit, acc):
         for seq in _seqs(unit["alphabet"], unit["L"], unit["chunk"]):
             nT = sum(s.startswith("T") for s in seq)
             L = len(seq)
-            gs = range(0, L + 2) if L <= 5 else sorted({0, max(0, nT - 1), nT, nT + 1, L + 1})
+            gs = range(0, L + 2) if L <= 4 else sorted({0, max(0, nT - 1), nT, nT + 1, L + 1})
             for Gn in gs:
                 check_case(dict(layer="a", seq=list(seq), G=Gn, aph=unit["alphabet"] == "6"), acc)
     elif lay == "ties":
@@ -135,6 +135,8 @@ def run_unit(unit, acc):
                     check_case(dict(layer="map", car=list(a), ped=list(b), G=[ga, gb]), acc)
     else:
         est, gt = S.pools(_SEED[0])
+        if unit.get("reduced"):   # quick tier: the manager layer uses the 7 x 6 core of the pools
+            est, gt = [est[i] for i in (0, 1, 2, 3, 4, 5, 7)], [gt[j] for j in (0, 1, 2, 3, 4, 7)]
         subs_e, subs_g = S.sublists(len(est), unit["kmax"]), S.sublists(len(gt), unit["kmax"])
         k, n = unit.get("chunk", [0, 1])
         idx = 0
